@@ -1,3 +1,5 @@
 import Proofs.Hyperslab
+import Proofs.MiniPy
 import Proofs.Slice
+import Proofs.SliceSrc
 import Proofs.SliceTuple
